@@ -23,6 +23,7 @@ mod supplysim;
 mod uni;
 mod unicheck;
 mod unisched;
+mod wcetsim;
 
 use std::path::PathBuf;
 
@@ -116,6 +117,7 @@ fn main() {
                 "C10" => streams::run_c10(&opt),
                 "C12" => derived::run_c12(&opt),
                 "C13" => extrap::run_c13(&opt),
+                "C14" => wcetsim::run_c14(&opt),
                 other => {
                     eprintln!("HARNESS-ERROR: no check for property {}", other);
                     2
@@ -144,6 +146,7 @@ fn main() {
                 "stream" => streams::replay_stream(path, &text),
                 "derived" => derived::replay_derived(path, &text),
                 "extrap" => extrap::replay_extrap(path, &text),
+                "wcet" => wcetsim::replay_wcet(path, &text),
                 other => {
                     eprintln!("HARNESS-ERROR: unknown replay engine '{}'", other);
                     2
